@@ -32,6 +32,10 @@ DIRECTED = [
     "stel n = 0; functie tel() { n = n + 1; n } [tel(), tel(), tel()] ",
     "functie f(x) { print(\"f {}\", x); x } f(1) + f(2) * f(3)", "functie f(x) { print(\"f {}\", x); x } f(ja) && f(nee) || f(ja)",
     "functie f(x) { print(\"f {}\", x); x } [f(1), f(2)][f(0)]",
+    "stel n = 0.0 / 0.0; [n == n, n != n, n < n, n <= n, n >= n]", "functie zelfde(a, b) { [a == b, a != b] } stel n = 0.0 / 0.0; stel l = [n]; [zelfde(n, n), zelfde(l[0], n), zelfde(1.5, 1.5)]", "functie is_getal(x) { x == x } [is_getal(0.0 / 0.0), is_getal(2.5)]",
+    "[1.14, 1.36, 1.39, 1.57, 1.118, 1.14 == 114.0 / 100.0, 1.14 == float(\"1.14\")]", "stel t = \"\\\"privé\\\" é\\\\n\"; [t, lengte(t)]",
+    "stel a = [10, 20]; [a[4294967296], 1]", "stel a = [10, 20]; a[4294967297] = 5; a", "stel s = \"abc\"; s[2147483648]", "stel a = [1, 2, 3]; a[7]; print(\"na a[7]\"); 1", "functie f(a, i) { a[i]; print(\"na\"); 2 } f([1], \"x\")",
+    "type([print(\"element\")])", "stel n = 0; functie tel() { n = n + 1; n } type([tel(), tel()]); n", "type([int(\"abc\")])", "lengte([onbekend_])",
     "[1.0 / -0.0, 1.0 / 0.0]", "[1.0 / 0.0, 1.0 / -0.0, -0.0, 0.0]", "stel min = -0.0; stel nul = 0.0; print(\"{} {}\", min, nul); 1.0 / min", "[-1.5, 1.5, -(1.5), -7, 7]",
     "stel a = [0, 0, 0]; stel i = 0; a[i] = (i = 2); [a, i]", "functie p(x) { print(\"p {}\", x); x } stel a = [0, 0]; a[p(1)] = p(7); a", "stel a = [1]; a[lengte(5)] = print(\"te laat\")",
     "stel n = 0; functie tel() { n = n + 1; n } stel a = [0, 0, 0, 0]; a[n] = tel(); a[n] = tel(); a", "stel lijst = [1, 2, 3]; functie vervang() { lijst = [7, 8, 9]; 0 } lijst[-1] = vervang(); lijst",
@@ -83,7 +87,7 @@ def run(ctx, log):
     for s_ in extra_sem_families:
         ctx.seen(("family", s_))
     # the same small programs at every size around the widths the implementation encodes things in (closed-form results)
-    progcheck.run_scale(ctx, log, ['constants', 'locals', 'args', 'statements', 'nesting', 'rtnest', 'objects', 'cyclic', 'alias', 'literal', 'temporaries', 'arity', 'names', 'text', 'csc'])
+    progcheck.run_scale(ctx, log, ['constants', 'locals', 'args', 'statements', 'nesting', 'rtnest', 'objects', 'cyclic', 'alias', 'literal', 'temporaries', 'arity', 'names', 'text', 'csc', 'collections'])
     progcheck.run_scale_wrapped(ctx, log, ['alias', 'cyclic', 'literal', 'objects', 'temporaries', 'rtnest', 'csc', 'constants', 'locals'])
     progcheck.run_code_boundary(ctx, log)
     rng = ctx.rng
